@@ -146,11 +146,14 @@ def evalExpr (e : Expr) (used : Bool) : EM σ (List String) :=
       let i ← evalExpr index true
       let s ← cv.sliceEvaluation (firstValue v) (firstValue i) used
       pure [s]
-  | .substr value start stop => do
+  | .substr value start none => do
       let a ← evalExpr start true
-      let b ← match stop with
-        | none => pure a
-        | some st => evalExpr st true
+      let v ← evalExpr value true
+      let s ← cv.stringSubscript (firstValue v) (firstValue a) (firstValue a) used
+      pure [s]
+  | .substr value start (some st) => do
+      let a ← evalExpr start true
+      let b ← evalExpr st true
       let v ← evalExpr value true
       let s ← cv.stringSubscript (firstValue v) (firstValue a) (firstValue b) used
       pure [s]
@@ -168,11 +171,12 @@ def evalExpr (e : Expr) (used : Bool) : EM σ (List String) :=
       let vs ← evalArgs vals
       let s ← cv.sliceInstantiation vs used
       pure [s]
-  | .input prompt => do
-      let p ← match prompt with
-        | none => pure ""
-        | some x => do let r ← evalExpr x used; pure (firstValue r)
-      let s ← cv.input p used
+  | .input none => do
+      let s ← cv.input "" used
+      pure [s]
+  | .input (some x) => do
+      let r ← evalExpr x used
+      let s ← cv.input (firstValue r) used
       pure [s]
   | .copy dst src => do
       let r ← evalExpr src true
@@ -187,8 +191,12 @@ def evalExpr (e : Expr) (used : Bool) : EM σ (List String) :=
       pure [s]
   | .len x => do
       let r ← evalExpr x true
-      let s ← if (Expr.valueType x).isString then cv.stringLen (firstValue r) used else cv.sliceLen (firstValue r) used
-      pure [s]
+      if (Expr.valueType x).isString then do
+        let s ← cv.stringLen (firstValue r) used
+        pure [s]
+      else do
+        let s ← cv.sliceLen (firstValue r) used
+        pure [s]
   | .read path => do
       if !(Expr.valueType path).isString then
         fail s!"expected string but got {(Expr.valueType path).name} as read path"
@@ -211,13 +219,13 @@ def evalArgs (es : List Expr) : EM σ (List String) :=
 /-- the chain of an app call: `(name, argument texts)` per program, left to right -/
 def evalAppChain (e : Expr) : EM σ (List (String × List String)) :=
   match e with
-  | .app name args next => do
+  | .app name args (some nx) => do
       let as ← evalArgs args
-      match next with
-      | some nx => do
-          let rest ← evalAppChain nx
-          pure ((name, as) :: rest)
-      | none => pure [(name, as)]
+      let rest ← evalAppChain nx
+      pure ((name, as) :: rest)
+  | .app name args none => do
+      let as ← evalArgs args
+      pure [(name, as)]
   | _ => pure []
 end
 
@@ -269,6 +277,14 @@ def assignCallValues (vars : List Var) (call : Expr) : EM σ Unit := do
     fail s!"require {vars.length} values but got {values.length}"
   else storeValues cv vars values
 
+/-- the append flag of `write` -/
+def evalAppend (append : Option Expr) : EM σ String :=
+  match append with
+  | none => pure "0"
+  | some x =>
+    if !(Expr.valueType x).isBool then fail s!"expected bool but got {(Expr.valueType x).name} as append flag"
+    else do let r ← evalExpr cv x true; pure (firstValue r)
+
 mutual
 /-- `evaluate` -/
 def evalStmt (st : Stmt) : EM σ Unit :=
@@ -295,22 +311,12 @@ def evalStmt (st : Stmt) : EM σ Unit :=
       cv.ifStart (firstValue c)
       evalBlock body
       evalElifs elifs ecs
-      if !els.isEmpty then
-        cv.elseStart
-        evalBlock els
-        cv.elseEnd
+      evalElse els
       cv.ifEnd
   | .forS init cond incr body => do
-      match init with
-      | some i => evalStmt i
-      | none => pure ()
+      evalInit init
       cv.forStart
-      match incr with
-      | some i => do
-          cv.forIncrementStart
-          evalStmt i
-          cv.forIncrementEnd
-      | none => pure ()
+      evalIncr incr
       let c ← evalExpr cv cond true
       cv.forCondition (firstValue c)
       evalBlock body
@@ -332,15 +338,36 @@ def evalStmt (st : Stmt) : EM σ Unit :=
         fail s!"expected string but got {(Expr.valueType data).name} as data"
       else
       let d ← evalExpr cv data true
-      let a ← match append with
-        | none => pure "0"
-        | some x =>
-          if !(Expr.valueType x).isBool then fail s!"expected bool but got {(Expr.valueType x).name} as append flag"
-          else do let r ← evalExpr cv x true; pure (firstValue r)
+      let a ← evalAppend cv append
       cv.writeFile (firstValue p) (firstValue d) a
   | .expr e => do
       let _ ← evalExpr cv e false
       pure ()
+
+/-- the optional init statement of a loop -/
+def evalInit (init : Option Stmt) : EM σ Unit :=
+  match init with
+  | some i => evalStmt i
+  | none => pure ()
+
+/-- the optional increment statement of a loop, between `ForIncrementStart` and `ForIncrementEnd` -/
+def evalIncr (incr : Option Stmt) : EM σ Unit :=
+  match incr with
+  | some i => do
+      cv.forIncrementStart
+      evalStmt i
+      cv.forIncrementEnd
+  | none => pure ()
+
+/-- the else branch (`HasElse` = non-empty body) -/
+def evalElse (els : List Stmt) : EM σ Unit :=
+  match els with
+  | [] => pure ()
+  | s :: rest => do
+      cv.elseStart
+      evalStmt s
+      evalStmts rest
+      cv.elseEnd
 
 /-- `evaluateBlock`: an empty body becomes a no-op -/
 def evalBlock (body : List Stmt) : EM σ Unit :=
